@@ -4,6 +4,7 @@ package meta
 
 // Contracts for the deductive verifier in /verif (govc). Comment-only file.
 
+//@ import rand "crypto/rand"
 //@ // representation invariant of a Meta: stored values are never nil nodes
 //@ pure func wfMeta(m *Meta) bool = forall k string :: has(m.Values, k) ==> m.Values[k] != nil
 //@
@@ -69,7 +70,7 @@ package meta
 //@   requires m != nil && m.Values != nil
 //@   use bytes_node
 //@   ensures [C19] stored: result == nil ==> keyOK(encryptionKey) && (val is string || val is []byte) && has(m.Values, key) && (exists n string :: len(n) == 24 && nodeBytes(m.Values[key]) == n ++ sbBox(plainOf(val), n, bytes(encryptionKey)))
-//@   assigns m.Keys, m.Values
+//@   assigns m.Keys, m.Values, delivered(rand.Reader), failed(rand.Reader)
 //@ // a value is returned only if the stored bytes authenticate under (their first 24 bytes, the key): the opened message
 //@ pure func openedAs(stored string, key []byte, plain string) bool =
 //@     len(stored) >= 24 && sbOpenOK(substr(stored, 24, len(stored)), substr(stored, 0, 24), bytes(key)) && plain == sbOpenMsg(substr(stored, 24, len(stored)), substr(stored, 0, 24), bytes(key))
